@@ -16,7 +16,7 @@ LEVEL = 'fault_enumeration'
 RULE = ('Scenario = generated pre-history (1..4 snapshots over overlapping file sets, optional delete, optional orphans, optional '
         'second shared-key user), one command X in {snapshot, delete, clean} and an interruption: (a) crash prefix - X is run '
         'once to count its M backend mutations, then re-run from the same state on a harness-controlled backend with a '
-        'generated completion order and the store frozen after k mutations, for generated k incl. 0, 1, M-1, M; (b) local '
+        'generated completion order and the store frozen after k mutations, for generated k incl. 0 and M (quick) / for every k in 0..M when M <= 40 (thorough); (b) local '
         'crash - X runs in a child process on a real directory and os._exit()s at the j-th step of the local adapter\'s '
         'temp-file protocol (temp created / p of n bytes written / before and after replace / before and after unlink); '
         '(c) permanent failure of the k-th backend call. Oracle on the post-crash state with fresh Repository objects and an '
@@ -32,7 +32,7 @@ ASSUMPTIONS = ['a killed process is modelled by freezing the atomic in-memory st
 def budget(tier):
     if tier == 'quick':
         return {'shards': 16, 'examples': 60, 'wall': 300, 'shrink_wall': 90}
-    return {'shards': 16, 'examples': 500, 'wall': 2700, 'shrink_wall': 300}
+    return {'shards': 16, 'examples': 1200, 'wall': 2700, 'shrink_wall': 300}
 
 
 fileset = st.lists(st.tuples(st.integers(0, 5), st.integers(0, 4)), min_size=1, max_size=4).map(lambda l: [list(x) for x in l])
@@ -71,7 +71,11 @@ def strategy(tier):
     return cases()
 
 
+_TIER = ['quick']
+
+
 def shard_setup(tier):
+    _TIER[0] = tier
     control.install()
 
 
@@ -252,6 +256,9 @@ def _memory(case, work):
 
         if case['mode'] == 'prefix':
             ks = sorted({k % (M + 1) for k in case['ks']} | ({0, M} if len(case['ks']) > 2 else set()))
+            if (_TIER[0] == 'thorough' or case.get('all_k')) and M <= 40:
+                ks = list(range(M + 1))         # every prefix of the mutation sequence of this scenario
+                classes.append('all-prefixes')
             for k in ks:
                 store = membackend.Store(pre_objects)
                 store.freeze_after = k
